@@ -165,7 +165,7 @@ pub fn judge(ctx: &Ctx, l: &mut Local, p: &Params, site: Site, date: NaiveDate) 
             viol("absent_weather_equals_default_weather", p, Some(w), json!({"weather": [w.0, w.1]}), &r2);
         }
     }
-    if ctx.want_sample() && date.format("%m-%d").to_string() == "02-29" {
+    if ctx.want_sample() && date.format("%d").to_string() == "01" {
         ctx.sample(json!({"site": site, "date": date_json(date), "params": params_key(p), "base_result": fmt_r(&r), "perturbations_per_case": "42 minute offsets, 12 intervals, school, +-1 deg angles, 5 weather points"}));
     }
 }
